@@ -13,6 +13,7 @@ VARIABLES p, tid, l, status,
 tvars == <<p, tid, l, status, jv>>
 
 ASSUME \A i \in 1..Len(Logs) : TLCSet(i, <<0, "ok">>)
+ASSUME Crc5TableOk
 
 TInit == /\ p = RxInit
          /\ tid \in 1..Len(Logs)
